@@ -53,6 +53,7 @@ def parseBev : List String → Option Block.Ev
   | ["block", w, t] => w.toNat?.map fun w => .block w (t == "1")
   | ["wake", w] => w.toNat?.map .wake
   | ["timeout", w] => w.toNat?.map .timeout
+  | ["abort", w] => w.toNat?.map .abort
   | ["notify", w, k] => w.toNat?.map fun w => .notify w k
   | ["unreg", w, k] => w.toNat?.map fun w => .unreg w k
   | ["fin", w] => w.toNat?.map .fin
